@@ -72,16 +72,27 @@ struct Jail {
     abs_escape: String,
 }
 
+fn empty_chain_of(tag: &str) -> bool {
+    util::fnv(&format!("chain|{}", tag)) % 2 == 0
+}
+
 fn make_jail(tag: &str) -> Jail {
     // spread the jails over buckets: one shared parent directory serialises all threads
     let bucket = util::fnv(tag) % 256;
     let jail = sandbox_dir().join(format!("c05-{}", std::process::id())).join(format!("b{}", bucket)).join(format!("c05-{}-{}", std::process::id(), tag));
     let _ = std::fs::remove_dir_all(&jail);
     let root = jail.join("r1").join("r2").join("r3");
-    let dest = root.join("outer").join("mid").join("dest");
+    // every other jail: the destination directory is EMPTY and sits in a directory that holds nothing else
+    // (a writer that tidies up empty folders after a failed object must not remove them: they are not inside
+    // the destination)
+    let empty_chain = empty_chain_of(tag);
+    let dest = if empty_chain { root.join("outer").join("mid").join("only").join("dest") } else { root.join("outer").join("mid").join("dest") };
     std::fs::create_dir_all(&dest).unwrap();
     std::fs::create_dir_all(jail.join("escape")).unwrap();
     for d in [&jail, &jail.join("r1"), &root, &root.join("outer"), &root.join("outer").join("mid"), &dest, &jail.join("escape")] {
+        if empty_chain && *d == dest {
+            continue;
+        }
         std::fs::write(d.join("canary.txt"), format!("canary of {}", d.display())).unwrap();
         std::fs::write(d.join("name"), "canary named name").unwrap();
     }
@@ -260,8 +271,10 @@ fn judge_location(tag: &str, location_of: &dyn Fn(&Jail, &str) -> String, cr: &m
             // only the destination changed: reset it
             let _ = std::fs::remove_dir_all(&j.dest);
             std::fs::create_dir_all(&j.dest).unwrap();
-            std::fs::write(j.dest.join("canary.txt"), format!("canary of {}", j.dest.display())).unwrap();
-            std::fs::write(j.dest.join("name"), "canary named name").unwrap();
+            if !empty_chain_of(tag) {
+                std::fs::write(j.dest.join("canary.txt"), format!("canary of {}", j.dest.display())).unwrap();
+                std::fs::write(j.dest.join("name"), "canary named name").unwrap();
+            }
         }
     }
     let _ = std::fs::remove_dir_all(&j.jail);
